@@ -3,6 +3,7 @@
 package c13
 
 import (
+	"math"
 	"fmt"
 	"testing"
 
@@ -296,6 +297,19 @@ func run(w *core.Worker, c Case) {
 				fail("FindMaxByKey-panic", "FindMaxByKey(%v, a) panicked: %v", c.Maps, q)
 			}
 			nontrivial = len(have) >= 2
+		case "AggTyped":
+			// Sum/SumBy/Mean "in the element type": narrow and wide integer types, values beyond
+			// 2^53, sums that wrap - the reference accumulates in the same type
+			aggTyped[int8](fail, s, func(x int) int8 { return int8(x) })
+			aggTyped[uint8](fail, s, func(x int) uint8 { return uint8(x) })
+			aggTyped[int16](fail, s, func(x int) int16 { return int16(x * 257) })
+			aggTyped[int32](fail, s, func(x int) int32 { return int32(x) << 20 })
+			aggTyped[int64](fail, s, func(x int) int64 { return int64(x) + 1<<53 + 1 })
+			aggTyped[int64](fail, s, func(x int) int64 { return int64(x)*1_000_000_007 + 1_700_000_000_000_000_000 })
+			aggTyped[uint64](fail, s, func(x int) uint64 { return ^uint64(0) - uint64(x&0xff) })
+			aggTyped[uint64](fail, s, func(x int) uint64 { return uint64(x&0xffff) + 1<<62 })
+			aggTyped[float32](fail, s, func(x int) float32 { return float32(x) / 8 })
+			nontrivial = len(s) >= 2
 		case "Nth":
 			got, err := gogu.Nth(s, c.V)
 			n := len(s)
@@ -477,10 +491,33 @@ func allSlices(vals []int, maxLen int) [][]int {
 	return out
 }
 
+
+// aggTyped checks Sum, SumBy and Mean of conv(s) against accumulation in the element type T.
+func aggTyped[T gogu.Number](fail func(sig, format string, a ...any), s []int, conv func(int) T) {
+	ts := make([]T, len(s))
+	var sum, sum2 T
+	for i, x := range s {
+		ts[i] = conv(x)
+		sum += ts[i]
+		sum2 += ts[i] + ts[i]
+	}
+	if got := gogu.Sum(ts); got != sum {
+		fail("Sum-typed", "Sum(%T %v)=%v want %v", sum, ts, got, sum)
+	}
+	if got := gogu.SumBy(ts, func(v T) T { return v + v }); got != sum2 {
+		fail("SumBy-typed", "SumBy(%T %v, 2v)=%v want %v", sum, ts, got, sum2)
+	}
+	if len(ts) > 0 {
+		if got, want := gogu.Mean(ts), sum/T(len(ts)); got != want {
+			fail("Mean-typed", "Mean(%T %v)=%v want %v (sum %v in the element type / %d)", sum, ts, got, want, sum, len(ts))
+		}
+	}
+}
+
 func TestProp(t *testing.T) {
 	r := core.Start(t, "C13")
 	defer r.Finish()
-	r.Rule("cases = one call group of a search/selection/aggregate/numeric helper checked against its definition: IndexOf/LastIndexOf/Contains, FindIndex/FindLastIndex/FindAll/Some/Every (4 predicates), FindMin/FindMax/Min/Max/Sum/SumBy/Mean (int and float64), FindMinBy/FindMaxBy (first extremal element, 4 key functions with ties), FindMinByKey/FindMaxByKey over map slices with/without the key, Nth over an index window, Abs/Clamp/InRange on all of int8, Compare (plain and by-key comparators with ties between unequal values, struct elements)/Less/Equal, Range/RangeRight against the reference progression; non-trivial = input of >= 2 elements resp. a proper match/progression; distinct by hash of the case")
+	r.Rule("cases = one call group of a search/selection/aggregate/numeric helper checked against its definition: IndexOf/LastIndexOf/Contains, FindIndex/FindLastIndex/FindAll/Some/Every (4 predicates), FindMin/FindMax/Min/Max/Sum/SumBy/Mean (int and float64), FindMinBy/FindMaxBy (first extremal element, 4 key functions with ties), FindMinByKey/FindMaxByKey over map slices with/without the key, Nth over an index window and at the extreme int values, Sum/SumBy/Mean also on int8/uint8/int16/int32/int64 (beyond 2^53)/uint64 (near the maximum)/float32 against accumulation in the element type, Abs/Clamp/InRange on all of int8, Compare (plain and by-key comparators with ties between unequal values, struct elements)/Less/Equal, Range/RangeRight against the reference progression; non-trivial = input of >= 2 elements resp. a proper match/progression; distinct by hash of the case")
 
 	L := r.Pick(5, 6)
 	core.Monitor(r, "def-sweep", 0, func(emit func(Case)) {
@@ -502,6 +539,13 @@ func TestProp(t *testing.T) {
 			}
 			for i := -(len(s) + 2); i <= len(s)+2; i++ {
 				emit(Case{Fn: "Nth", S: s, V: i})
+			}
+			if len(s) <= 3 {
+				// extreme indices: the negation of the smallest int is not representable
+				for _, i := range []int{math.MinInt, math.MinInt + 1, math.MaxInt, math.MaxInt - 1, -1 << 31, 1 << 31, -1<<32 - 1, 1 << 32} {
+					emit(Case{Fn: "Nth", S: s, V: i})
+				}
+				emit(Case{Fn: "AggTyped", S: s})
 			}
 		}
 		r.Exhaustive(fmt.Sprintf("IndexOf/LastIndexOf/Contains(probes -1..3), FindIndex/FindLastIndex/FindAll/Some/Every(8 predicates), FindMin/FindMax/Min/Max/Sum/SumBy/Mean, FindMinBy/FindMaxBy(4 key fns), Nth(indices -(len+2)..len+2) on all slices of length<=%d over {0,1,2}", L), int64(len(ss)))
@@ -584,6 +628,7 @@ func TestProp(t *testing.T) {
 				emit(Case{Fn: "MinMaxBy", S: s, Key: keyFns[rng.Intn(4)]})
 			case 4:
 				emit(Case{Fn: "Nth", S: s, V: rng.Range(-n-3, n+3)})
+				emit(Case{Fn: "AggTyped", S: s})
 			case 5:
 				var ms []map[string]int
 				for k := rng.Intn(8); k > 0; k-- {
